@@ -451,7 +451,7 @@ def coq_op(op, data):
     if k == "raddstr":
         return "ORaddStr %s %d" % (coq_str(op[1]), op[2])
     if k == "mul":
-        return "OMul %d %d" % (op[1], op[2])
+        return "OMul %d %d" % (op[1], max(0, op[2]))
     if k == "copy":
         return "OCopy %d" % op[1]
     if k == "getitem":
@@ -689,7 +689,7 @@ def gen_program(rng, maxlen):
         elif k == "raddstr":
             op = ["raddstr", text(3), p]
         elif k == "mul":
-            op = ["mul", p, rng.choice([0, 1, 2, 3])]
+            op = ["mul", p, rng.choice([0, 1, 2, 3, -1, -2])]     # a negative count is an empty repetition, like 0
         elif k == "copy":
             op = ["copy", p]
         elif k == "getitem":
